@@ -105,12 +105,15 @@ StepScript ==
 
 StepExpr ==
     LET r == Eval(C.expr, NoLoc, st, <<DefaultFuel, C.bi>>) IN
-    /\ st' = r.st /\ ret' = r.v /\ status' = "done" /\ seen' = Len(r.st.log)
-    /\ IF ~NewEventsOK(r.st.log, 0) THEN
-            /\ verdict' = "REJECT"
-            /\ PrintT(<<"V", tid, "REJECT", "event", <<FirstBad(r.st.log, 0)>>>>)
-       ELSE Conclude(r.st, r.v)
-    /\ UNCHANGED <<tid, pc>>
+    IF ~NewEventsOK(r.st.log, 0) THEN
+        /\ verdict' = "REJECT" /\ status' = "rejected"
+        /\ PrintT(<<"V", tid, "REJECT", "event", <<FirstBad(r.st.log, 0),
+                    IF FirstBad(r.st.log, 0) <= Len(r.st.log) THEN r.st.log[FirstBad(r.st.log, 0)] ELSE "none",
+                    IF FirstBad(r.st.log, 0) <= Len(C.trace) THEN C.trace[FirstBad(r.st.log, 0)] ELSE "none">>>>)
+        /\ UNCHANGED <<tid, pc, st, ret, seen>>
+    ELSE /\ st' = r.st /\ ret' = r.v /\ status' = "done" /\ seen' = Len(r.st.log)
+         /\ Conclude(r.st, r.v)
+         /\ UNCHANGED <<tid, pc>>
 
 Next ==
     /\ status = "run"
